@@ -25,7 +25,7 @@ def _walk(draw, n, dim):
         # strongly uneven sampling: step lengths 2^-3 .. 2^6 (dense runs separated by gaps)
         for _ in range(n - 1):
             lead = draw(st.integers(0, dim - 1))
-            mag = 2.0 ** draw(st.sampled_from([-3, -3, -2, -1, 0, 2, 4, 6, 6]))
+            mag = 2.0 ** draw(st.sampled_from([-3, -3, -2, -1, 0, 2, 4, 6, 6, -13]))          # 2^-13: nearly coincident neighbours
             step = [draw(st.integers(-1, 1)) * mag / 2 for _ in range(dim)]
             step[lead] = draw(st.sampled_from([-1.0, 1.0])) * mag
             pts.append([a + b for a, b in zip(pts[-1], step)])
@@ -169,6 +169,14 @@ def check_interp_curve(case, ctx):
         mine = curve_pt(p, U, P, u)
         ctx.check(all(abs(a - b) <= 1e-7 * big for a, b in zip(mine, q)), "interpolation-definition",
                   "definition of the returned curve at %r gives %r, data point %r" % (u, mine, q))
+    # the same data in the opposite order, fitted right afterwards in the same process, is interpolated as well
+    Qr = [list(q) for q in Q[::-1]]
+    crv2 = fitting.interpolate_curve(Qr, p, centripetal=cen)
+    ukr = params_curve(Qr, cen)
+    for k, (u, q) in enumerate(zip(ukr, Qr)):
+        got = crv2.evaluate_single(u)
+        ctx.check(all(abs(a - b) <= 1e-7 * big for a, b in zip(got, q)), "interpolation",
+                  "reversed data fitted after the original: curve at parameter %d (%r) is %r, data point %r" % (k, u, got, q))
 
 
 @st.composite
